@@ -28,6 +28,7 @@ type PkgRules struct {
 	Globals  []string // R4: package-level variables whose accesses become points
 	GoStmt   bool     // R5
 	Ticks    bool     // R6
+	Atomics  bool     // R7: a scheduling point in front of every statement that performs a sync/atomic operation
 	Export   string   // file under engine/export injected as verif_export.go
 }
 
@@ -262,6 +263,18 @@ func (f *fileInstr) stmt(s ast.Stmt) {
 	if f.r.Ticks {
 		f.tickCalls(s)
 	}
+	// R7: sync/atomic steps are scheduling points (a point in front of a statement is always harmless)
+	if f.r.Atomics {
+		switch s.(type) {
+		case *ast.BlockStmt, *ast.LabeledStmt, *ast.DeclStmt:
+		default:
+			if f.hasAtomic(s) {
+				f.insert(s.Pos(), "vsched.Point(\"atomic\"); ")
+				f.sites["R7.atomic"]++
+				f.need["vsched"] = true
+			}
+		}
+	}
 	// recurse into nested statement lists
 	switch v := s.(type) {
 	case *ast.BlockStmt:
@@ -295,6 +308,37 @@ func (f *fileInstr) stmt(s ast.Stmt) {
 		}
 		return true
 	})
+}
+
+// hasAtomic reports whether s itself (not its nested blocks or function literals) calls a function of package
+// sync/atomic or a Load/Store/Swap/CompareAndSwap method (the method set of the atomic types and of atomic.Value).
+func (f *fileInstr) hasAtomic(s ast.Stmt) bool {
+	found := false
+	ast.Inspect(s, func(n ast.Node) bool {
+		if found {
+			return false
+		}
+		switch v := n.(type) {
+		case *ast.BlockStmt:
+			return n == ast.Node(s)
+		case *ast.FuncLit:
+			return false
+		case *ast.CallExpr:
+			if se, ok := v.Fun.(*ast.SelectorExpr); ok {
+				if id, ok := se.X.(*ast.Ident); ok && id.Obj == nil && id.Name == "atomic" {
+					found = true
+					return false
+				}
+				switch se.Sel.Name {
+				case "Load", "Store", "Swap", "CompareAndSwap":
+					found = true
+					return false
+				}
+			}
+		}
+		return true
+	})
+	return found
 }
 
 // tickCalls inserts vstep.TickN(len(arg0)) before s for every call bytes.X(arg0, ...) / strings.X(arg0, ...)
